@@ -12,6 +12,9 @@
     function that advances the sibling cursor by the size of a subtree must count every descendant: neither it nor anything it
     calls may read the item's `open` flag (the *visible* count, which skips the children of closed items, is a different
     quantity that belongs in /Count only).
+ R5 /Count covers the subtree: the value written under /Count of an item is computed, on the open and on the closed branch alike, by
+    one of the item's recursive descendant counts; the number of *direct* children (`children.len()`) under-counts every item
+    whose children have children.
 Not decided: the counts' values, destination page resolution.
 """
 from .. import lib as L
@@ -24,6 +27,7 @@ W = "writer::pdf_writer::PdfWriter::<W>::"
 
 def run(ctx):
     r4_stride_counts_all(ctx)
+    r5_count_is_recursive(ctx)
     facts = ctx.facts
     od = ctx.fn("structure::outline::outline_item_to_dict", "anchor")
     keys = set(s for b, s, c in L.str_args(od, ["Dictionary::set"]))
@@ -178,3 +182,28 @@ def r4_stride_counts_all(ctx):
         else:
             ctx.ok("R4", key, "the stride function counts every descendant (does not read `open`)", fn.where(b))
     ctx.floor("R4", "subtree-size calls in outline_sibling_indices", n, 1)
+
+
+def r5_count_is_recursive(ctx):
+    from .. import flow as FL
+    facts = ctx.facts
+    fn = ctx.fn("structure::outline::outline_item_to_dict", "R5")
+    fl = FL.flow(fn)
+    sets = [(b, c) for b, s_, c in L.str_args(fn, ["Dictionary::set"]) if s_ == "Count"]
+    if not ctx.floor("R5", "/Count set in outline_item_to_dict", len(sets), 1):
+        return
+    b = sets[0][0]
+    val = fn.term(b)[2][2]
+    seen, drecs = fl.back_slice(FL.op_locals(val))
+    calls = [L.short(cc.get("r") or cc.get("p") or "") for bb, cc in fl.calls_in_slice(drecs)]
+    rec = [c for c in calls if c.startswith("count_")]
+    direct = [c for c in calls if c == "len"]
+    key = "outline_item_to_dict:count-from-recursive-descendant-count"
+    # every assignment that feeds the value must come from a recursive count: look at the defs of the `count` local
+    if direct or len(set(rec)) < 2:
+        ctx.violation("R5", key, "the value written under /Count is computed from %s: a branch that uses the number of direct children "
+                      "(or lacks one of the two subtree counts) writes a /Count that ignores grandchildren — a closed item whose "
+                      "children have children claims fewer descendants than are written" % sorted(set(calls) - {"new", "from", "into"})[:6],
+                      fn.where(b))
+    else:
+        ctx.ok("R5", key, "both branches use a recursive descendant count (%s)" % sorted(set(rec)), fn.where(b))
